@@ -214,6 +214,66 @@ def _check_rows(res, key, case, st, rows, idx, have_blobs, n):
     return ok
 
 
+def _mult_by_uniforms(res, case, sizes, n, have_blobs, w):
+    """The multinomial path does not call np.random.choice: decide its law through the uniform variates it consumes instead.  Every uniform-producing
+    function is scripted to return the constant v; v runs over the mid-point of every cell of the partition of [0,1) by the cumulative weights, the
+    breakpoints themselves and their neighbours, 0.0 and 1-2^-53.  Oracles: a particle of weight 0 is never selected (any v); the set of v mapped
+    to index j has measure w_j (mid-points; exact rational arithmetic) - true for every unbiased deterministic map of one uniform per draw."""
+    from tempest.steps.resample import Resampler
+
+    m = len(w)
+    wn = [F(float(x)) for x in w]
+    tot = sum(wn)
+    C = [sum(wn[: j + 1]) / tot for j in range(m)]
+    edges = [F(0)] + [c for c in C[:-1] if 0 < c < 1] + [F(1)]
+    edges = sorted(set(edges))
+    vals = [(float((a + b) / 2), b - a) for a, b in zip(edges[:-1], edges[1:])]
+    special = [0.0, 1.0 - 2.0 ** -53, 5e-324] + [x for e in edges[1:-1] for x in (float(e), float(np.nextafter(float(e), 0.0)), float(np.nextafter(float(e), 1.0)))]
+    measure = [F(0)] * m
+    used = [0]
+    for v, length in vals + [(x, None) for x in special]:
+        st, rows = _pool_state(sizes, have_blobs)
+
+        def h(t, *a, **k):
+            used[0] += 1
+            size = k.get("size", a[0] if (a and t != "uniform") else (a[2] if len(a) > 2 else None))
+            if t == "rand":
+                size = a if a else None
+            return v if size is None else np.full(size, v)
+
+        hs = {name: (lambda tape, *a, _n=name, **k: h(_n, *a, **k)) for name in ("random", "random_sample", "rand", "uniform", "sample", "ranf")}
+        r = Resampler(st, n_particles=n, resample="mult", clusterer=None, clustering=False, have_blobs=have_blobs)
+        with OwnedRandom(1, handlers=hs):
+            try:
+                r.run(w.copy())
+            except Exception as e:
+                res.violate(f"mult:raises:{type(e).__name__}", f"Resampler.run(mult) raised {e!r} when every uniform variate is {v!r} (weights {w.tolist()})", dict(case, v=v))
+                continue
+        res.evals += 1
+        if not used[0]:
+            res.bump("mult_law_unobservable_no_uniforms")
+            return
+        cur = st._current
+        idx = []
+        for row in np.asarray(cur["u"]):
+            j = [k for k, rw in enumerate(rows) if np.array_equal(rw[0], row)]
+            idx.append(j[0] if j else -1)
+        if len(idx) != n or -1 in idx:
+            res.violate("mult:rows", f"Resampler.run(mult) with every uniform variate {v!r}: {len(idx)} rows / rows that are not pool particles (weights {w.tolist()})", dict(case, v=v))
+            continue
+        zs = [j for j in set(idx) if w[j] == 0.0]
+        if zs:
+            res.violate("mult:zero-weight-selected", f"multinomial resampling selected particle {zs[0]} of weight 0 when a uniform variate is {v!r} (weights {w.tolist()}): its expected number of copies is 0", dict(case, v=v))
+            continue
+        if length is not None and len(set(idx)) == 1:
+            measure[idx[0]] += length
+    if used[0] and all(len(vals) for _ in [0]):
+        bad = [j for j in range(m) if abs(measure[j] - wn[j] / tot) > F(1, 10 ** 12)]
+        if bad:
+            res.violate("mult:law:measure", f"the uniform variates mapped to particle {bad[0]} have measure {float(measure[bad[0]])!r}, its weight is {float(wn[bad[0]] / tot)!r} (weights {w.tolist()})", dict(case))
+    res.outcome(("mult-uniforms", m, n, tuple(w.tolist())), nontrivial=True)
+
+
 def run_mult(case):
     from tempest.steps.resample import Resampler
 
@@ -242,7 +302,8 @@ def run_mult(case):
         res.trans += 1
         if not rec:
             res.bump("mult_law_unobserved")
-            continue
+            _mult_by_uniforms(res, case, sizes, n, have_blobs, w)
+            break
         a, size, replace, p = rec[0]
         a_ok = (isinstance(a, (int, np.integer)) and int(a) == m) or (np.ndim(a) == 1 and np.array_equal(np.asarray(a), np.arange(m)))
         s_ok = (size == n) or (isinstance(size, tuple) and tuple(size) == (n,))
@@ -587,7 +648,7 @@ def plan(ctx):
     mult = []
     for sizes in ([2, 1], [2, 2]):
         m = sum(sizes)
-        for wv in ([0.4, 0.3, 0.2, 0.1][:m], [0.7, 0.0, 0.2, 0.1][:m]):
+        for wv in ([0.4, 0.3, 0.2, 0.1][:m], [0.7, 0.0, 0.2, 0.1][:m], [0.0, 0.5, 0.25, 0.25][:m], [0.5, 0.25, 0.25, 0.0][:m], [0.0, 0.0, 1.0, 0.0][:m]):  # incl. exact zeros first / last, one particle carrying everything
             wv = (np.array(wv) / np.sum(wv)).tolist()
             for n in (1, 2, 3):
                 for blobs in (False, True):
